@@ -12,6 +12,7 @@ ALPHABETS = {
     'non-ASCII': ('Ид', 'ид', 'Straße', 'x'),
     'underscore': ('_', 'a', '_a'),
     'prefixed': ('a', 'ns:a', 'xmlns:a', 'text'),
+    'suffix collisions': ('a', 'A', 'a_1', 'a_attr'),
 }
 def class_names(maxlen):
     """every name of <= maxlen characters over one representative per character class (lower, upper, digit, '_', '-', '.', ':', non-ASCII lower, non-ASCII upper)
